@@ -237,8 +237,11 @@ class CallMixin:
   def list_extend(self, lst, other):
     other = self.unopt(other)
     if isinstance(lst, VList):
-      lst.items.extend(self.iter_concrete(other))
-      return
+      if isinstance(other, (VMList, VSeq)) and (other.seq if isinstance(other, VMList) else other).kind == 'obj':
+        self.promote_list(lst)   # a concrete list extended by one of symbolic length: same identity, symbolic length
+      else:
+        lst.items.extend(self.iter_concrete(other))
+        return
     s = lst.seq
     if isinstance(other, (VTuple, VList)):
       arr, n = s.arr, s.n
